@@ -94,6 +94,17 @@ pub fn flush_of(s: &str) -> FlushStrategy {
 }
 
 pub async fn open(dir: &Path, flush: &str) -> Result<PersistentStateManager<String>, String> {
+    // The store draws its integrity key from OS randomness when the directory has none. A key
+    // derived from the run seed and the directory name is put in place first, so that every
+    // byte on disk - and any behaviour that depends on tag values - replays exactly.
+    let key_path = dir.join(".state.key");
+    if !key_path.exists() {
+        let _ = std::fs::create_dir_all(dir);
+        let name = dir.file_name().and_then(|n| n.to_str()).unwrap_or("");
+        let tag = if name.starts_with('i') && name.len() <= 3 { "img".to_string() } else { name.to_string() };
+        let mut r = crate::simkit::Rng::new(crate::simkit::run_seed() ^ crate::simkit::rng::str_hash(&tag));
+        let _ = std::fs::write(&key_path, r.bytes(32));
+    }
     let cfg = StateConfig {
         state_dir: dir.to_path_buf(),
         flush_strategy: flush_of(flush),
